@@ -5,6 +5,9 @@
 
 #include <etl/_config/all.hpp>
 
+#include <etl/_bit/bit_cast.hpp>
+#include <etl/_cstdint/uint_t.hpp>
+#include <etl/_type_traits/conditional.hpp>
 #include <etl/_type_traits/is_constant_evaluated.hpp>
 #include <etl/_type_traits/is_same.hpp>
 
@@ -14,10 +17,16 @@ namespace detail {
 template <typename T>
 constexpr auto copysign_fallback(T x, T y) noexcept -> T
 {
-    if ((x < 0 and y > 0) or (x > 0 and y < 0)) {
-        return -x;
+    if constexpr (sizeof(T) == 4U or sizeof(T) == 8U) {
+        // magnitude bits of x, sign bit of y: also right for zeros and NaNs
+        using U             = etl::conditional_t<sizeof(T) == 4U, etl::uint32_t, etl::uint64_t>;
+        constexpr auto sign = static_cast<U>(U(1) << (sizeof(U) * 8U - 1U));
+        auto const xBits    = etl::bit_cast<U>(x);
+        auto const yBits    = etl::bit_cast<U>(y);
+        return etl::bit_cast<T>(static_cast<U>((xBits & ~sign) | (yBits & sign)));
+    } else {
+        return __builtin_copysignl(x, y);
     }
-    return x;
 }
 
 template <typename T>
